@@ -899,9 +899,16 @@ retry:
 // unregisters a connected player
 func (p *Proxy) unregisterConnection(player *connectedPlayer) (found bool) {
 	p.muP.Lock()
-	_, found = p.playerIDs[player.ID()]
-	delete(p.playerNames, strings.ToLower(player.Username()))
-	delete(p.playerIDs, player.ID())
+	// Only remove index entries that belong to this very connection, a rejected
+	// duplicate login must not unregister the legitimate player.
+	lowerName := strings.ToLower(player.Username())
+	if p.playerNames[lowerName] == player {
+		delete(p.playerNames, lowerName)
+	}
+	if p.playerIDs[player.ID()] == player {
+		found = true
+		delete(p.playerIDs, player.ID())
+	}
 	empty := len(p.playerIDs) == 0
 	p.muP.Unlock()
 	if empty {
